@@ -58,6 +58,9 @@ type lfGuardSpec struct {
 var lfSpecs = []lfGuardSpec{
 	{"internal/driver", "", "currentCfg", "", "currentMu", "mutex"},
 	{"internal/driver", "", "tempFiles", "", "tempFilesMu", "mutex"},
+	// the saved-settings file: every writeSettings call is part of a read-modify-write and must
+	// run under settingsMu ("()" = the sites are the calls of the function)
+	{"internal/driver", "", "writeSettings()", "", "settingsMu", "mutex"},
 	{"profile", "*", "*X", "Profile", "encodeMu", "mutex"},
 	{"profile", "Profile", "stringTable", "Profile", "encodeMu", "mutex"},
 	{"internal/binutils", "Binutils", "rep", "Binutils", "mu", "mutex"},
@@ -1046,7 +1049,7 @@ type lfSite struct {
 
 type lfTarget struct {
 	spec  lfGuardSpec
-	v     *types.Var
+	v     types.Object // *types.Var, or *types.Func when the sites are the calls of a function
 	guard *types.Var
 	name  string
 }
@@ -1174,6 +1177,9 @@ func (p *lfPkg) sitesOf(t *lfTarget, fr *lfFresh, conf map[*lfUnit]bool, onceBod
 			ps := p.fset.Position(id.Pos())
 			s := lfSite{variable: t.name, file: p.rel + "/" + filepath.Base(ps.Filename), line: ps.Line, guard: gname, barrier: "none"}
 			s.write = p.isWrite(expr)
+			if _, isFn := t.v.(*types.Func); isFn {
+				s.write = true
+			}
 			u := p.unitAt(id)
 			if u == nil {
 				s.fn = "package-level"
@@ -1491,6 +1497,11 @@ func (p *lfPkg) goSites() []lfGo {
 					}
 					if !loopOK {
 						g.slotParam = false
+					} else if sid, ok := ast.Unparen(ix.X).(*ast.Ident); ok {
+						// the slice holding the slots must not be touched before the join either
+						if o := p.info.Uses[sid]; o != nil {
+							written[o] = true
+						}
 					}
 				}
 			}
@@ -1677,7 +1688,16 @@ func genLockFacts(e *Env) (string, error) {
 			if spec.pkg != rel {
 				continue
 			}
-			vars := p.lookupVar(spec.owner, spec.field)
+			var vars []types.Object
+			if strings.HasSuffix(spec.field, "()") {
+				if fn, ok := p.pkg.Scope().Lookup(strings.TrimSuffix(spec.field, "()")).(*types.Func); ok {
+					vars = append(vars, fn)
+				}
+			} else {
+				for _, v := range p.lookupVar(spec.owner, spec.field) {
+					vars = append(vars, v)
+				}
+			}
 			gs := p.lookupVar(spec.gOwn, spec.guard)
 			if len(vars) == 0 {
 				errs = append(errs, fmt.Sprintf("%s: guarded variable %s.%s not found", rel, spec.owner, spec.field))
@@ -1725,8 +1745,11 @@ func genLockFacts(e *Env) (string, error) {
 			}
 			for _, v := range vars {
 				name := p.pkg.Name() + "." + v.Name()
-				if v.IsField() {
-					name = p.pkg.Name() + "." + lfFieldOwner(p, v) + "." + v.Name()
+				if fv, ok := v.(*types.Var); ok && fv.IsField() {
+					name = p.pkg.Name() + "." + lfFieldOwner(p, fv) + "." + v.Name()
+				}
+				if _, ok := v.(*types.Func); ok {
+					name += "()"
 				}
 				t := &lfTarget{spec: spec, v: v, guard: g, name: name}
 				guardRows = append(guardRows, [3]string{name, lfGuardName(p, g), spec.kind})
@@ -1828,6 +1851,54 @@ func genLockFacts(e *Env) (string, error) {
 			b.WriteString(",\n")
 		}
 		fmt.Fprintf(&b, "  (%s, %s, %s, %s)", leanStr(n.fn), leanStr(n.outer), leanStr(n.inner), leanStr(n.where))
+	}
+	b.WriteString("]\n\n")
+	// lock order: ids for every guard that occurs in a region, the nesting edges, and a rank
+	// certificate (topological order; when the nesting relation has a cycle no valid rank exists
+	// and the ranks emitted here fail the check lock_order_acyclic)
+	for _, r := range regions {
+		if _, ok := guardID[r.guard]; !ok {
+			guardID[r.guard] = len(guardID)
+		}
+	}
+	type edge struct{ o, i int }
+	var edges []edge
+	seenEdge := map[edge]bool{}
+	for _, n := range nested {
+		e := edge{guardID[n.outer], guardID[n.inner]}
+		if !seenEdge[e] {
+			seenEdge[e] = true
+			edges = append(edges, e)
+		}
+	}
+	rank := map[int]int{}
+	for pass := 0; pass <= len(guardID); pass++ { // longest-path layering; stabilises iff acyclic
+		for _, e := range edges {
+			if rank[e.i] < rank[e.o]+1 && rank[e.o]+1 <= len(guardID)+1 {
+				rank[e.i] = rank[e.o] + 1
+			}
+		}
+	}
+	b.WriteString("/-- nesting edges (outer guard id, inner guard id) -/\ndef nestedEdges : List (Nat × Nat) := [")
+	for i, e := range edges {
+		if i > 0 {
+			b.WriteString(", ")
+		}
+		fmt.Fprintf(&b, "(%d, %d)", e.o, e.i)
+	}
+	b.WriteString("]\n\n/-- rank certificate: (guard id, name, rank); every nesting edge must go to a higher rank -/\ndef lockRank : List (Nat × String × Nat) := [\n")
+	var gnames []string
+	for g := range guardID {
+		if g != "" {
+			gnames = append(gnames, g)
+		}
+	}
+	sort.Slice(gnames, func(i, j int) bool { return guardID[gnames[i]] < guardID[gnames[j]] })
+	for i, g := range gnames {
+		if i > 0 {
+			b.WriteString(",\n")
+		}
+		fmt.Fprintf(&b, "  (%d, %s, %d)", guardID[g], leanStr(g), rank[guardID[g]])
 	}
 	b.WriteString("]\n\n")
 	b.WriteString("/-- every `go` statement of the analysed packages -/\ndef goSites : List GoSite := [\n")
